@@ -328,6 +328,21 @@ fn fault_space(ctx: &mut Ctx, s: &Sample, p: &mut Prng, idx: &mut u64) {
             probe(ctx, s, &s.id, &t, "c3_fold_preserving_change");
         }
     }
+    // the same mask on bytes 4 / 8 / 16 / 24 apart: invisible to a comparison that folds 32- or 64-bit lanes by XOR
+    for offs in [vec![4usize], vec![8], vec![16], vec![24], vec![8, 16, 24], vec![4, 8, 12]] {
+        let a = p.below(8) as usize;
+        let m = 1 + p.below(255) as u8;
+        if !mine(ctx) {
+            continue;
+        }
+        let mut t = s.ct.clone();
+        let c3 = &mut t[65..97];
+        c3[a] ^= m;
+        for o in offs {
+            c3[a + o] ^= m;
+        }
+        probe(ctx, s, &s.id, &t, "c3_fold_preserving_change");
+    }
 }
 
 pub fn run(ctx: &mut Ctx) {
@@ -628,6 +643,27 @@ pub fn run(ctx: &mut Ctx) {
             if !ok {
                 ctx.violation(&format!("decrypt:interleaved-keys:{}:{}", if use_a_key == use_a_ct { "valid-not-decrypted" } else { "wrong-key-not-rejected" }, oc(&o)), json!({"keA": hex::encode(r9::b32(&kea)), "keB": hex::encode(r9::b32(&keb)), "id": hx(&id), "step": step}));
                 break;
+            }
+        }
+    }
+    // --- encryption under two master keys alternately on one thread; every other pair opposite (ke, N - ke)
+    {
+        let nh = ctx.n(4, 64);
+        let mut pe = ctx.prng("interleave_enc");
+        for i in 0..nh {
+            let sub = pe.next();
+            if !ctx.mine(i) {
+                continue;
+            }
+            let mut p = Prng::new(sub, "ie");
+            let kea = rand_scalar(&mut p, &(&pr.n - 1u32));
+            let keb = if i % 2 == 0 { &pr.n - &kea } else { rand_scalar(&mut p, &(&pr.n - 1u32)) };
+            let id = p.bytes(5);
+            for step in 0..4 {
+                let r = rand_scalar(&mut p, &(&pr.n - 1u32));
+                let msg = p.bytes(17);
+                ctx.class("interleaved_keys_encrypt");
+                enc_case(ctx, if step % 2 == 0 { &kea } else { &keb }, &id, &msg, Some(&r), "interleaved_keys_encrypt");
             }
         }
     }
